@@ -272,6 +272,31 @@ theorem fail_fast_node_answers_not_found :
     nodeFilter true accEq [1] [[db2]] webOrDb = .error .tagValueNotFound ∧
     nodeFilter false accEq [1] [[db2]] webOrDb = .ok [[2]] := ⟨rfl, rfl⟩
 
+/-! #### finding (g): NOT over a composite ranges over the node's first-ever tag key
+
+Tag key ids are node-local (a node-wide sequence from 0, in arrival order). The model's `Key` is
+that id. Series a `{host=a}` and b `{dc=x, host=b}`; `not (host='zz' or host='yy')` (values nobody
+wrote: both series satisfy it). -/
+
+/-- rows arrived a, b: host = 0, dc = 1 -/
+def arrivedAB : List (List Key × Node Nat) := [([0, 1], [[⟨0, [(0, 1)]⟩, ⟨1, [(1, 9), (0, 2)]⟩]])]
+/-- rows arrived b, a: dc = 0, host = 1 -/
+def arrivedBA : List (List Key × Node Nat) := [([0, 1], [[⟨0, [(1, 1)]⟩, ⟨1, [(0, 9), (1, 2)]⟩]])]
+/-- `not (host=77 or host=88)` with `host` numbered `h` -/
+def notComposite (h : Key) : Cond Nat := .not (.paren (.or (.atom ⟨h, 77⟩) (.atom ⟨h, 88⟩)))
+def notAtom (h : Key) : Cond Nat := .not (.atom ⟨h, 77⟩)
+
+/-- **The same written series on ONE node, the same condition: which series NOT-over-a-composite
+matches depends on which tag key reached the node first** (series a is lost when `dc` arrived
+first); NOT over an atomic filter does not. `filter_layout_invariant` is not contradicted: it takes
+the key numbering as part of the series (`hsame`), i.e. it assumes what the harness's layouts
+guarantee — every node numbers the keys alike. -/
+theorem not_over_composite_depends_on_key_numbering :
+    layoutMatched false accEq arrivedAB (notComposite 0) = [0, 1] ∧
+    layoutMatched false accEq arrivedBA (notComposite 1) = [1] ∧
+    layoutMatched false accEq arrivedAB (notAtom 0) = [0, 1] ∧
+    layoutMatched false accEq arrivedBA (notAtom 1) = [0, 1] := by decide
+
 end Neg
 
 end LinVerif.Props.C12Filter
